@@ -62,6 +62,7 @@ func scenC08(r *Run, job *Job) {
 	for i := range pSubs {
 		pSubs[i] = extSubSets[t.Draw(len(extSubSets))]
 	}
+	pShut := []string{"", "", "exit1", "exiterror", "ignore"}[t.Draw(5)] // how the prefix's extensions take SHUTDOWN
 	pInt := t.Chance(1, 3)
 	pAgent := []string{"sim-runtime/1.0", strings.Repeat("very-long-user-agent-", 12) + " (a b c)"}[t.Draw(2)]
 	reNum := []int{0, 1, 1}[t.Draw(3)]
@@ -83,9 +84,9 @@ func scenC08(r *Run, job *Job) {
 	}
 	trivial := r.Pass == 2
 	if trivial {
-		pModes, pSubs, pInt, pAgent, reNum, evLat, killLat, holdSite = []string{"ok", "explicit"}, suf.subs, false, suf.agent, 0, 0, 0, ""
+		pModes, pSubs, pInt, pAgent, reNum, evLat, killLat, holdSite, pShut = []string{"ok", "explicit"}, suf.subs, false, suf.agent, 0, 0, 0, "", ""
 	}
-	r.Desc = fmt.Sprintf("C08 T=%ds exts=%d prefix=%v pSubs=%v pInt=%v evLat=%s killLat=%s hold=%q/%d/%d reorder=%d/4 | suffix=%v subs=%v int=%d delay=%s", timeoutSec, nExt, pModes, pSubs, pInt, evLat, killLat, holdSite, holdNth, holdSteps, reNum, suf.modes, suf.subs, len(suf.intExts), suf.delay)
+	r.Desc = fmt.Sprintf("C08 T=%ds exts=%d prefix=%v pSubs=%v pInt=%v pShut=%q evLat=%s killLat=%s hold=%q/%d/%d reorder=%d/4 | suffix=%v subs=%v int=%d delay=%s", timeoutSec, nExt, pModes, pSubs, pInt, pShut, evLat, killLat, holdSite, holdNth, holdSteps, reNum, suf.modes, suf.subs, len(suf.intExts), suf.delay)
 	if r.Pass == 1 {
 		r.Logf("%s", r.Desc)
 	} else {
@@ -156,6 +157,7 @@ func scenC08(r *Run, job *Job) {
 			b.Subs = suf.subs[idx-1]
 		} else {
 			b.Subs = pSubs[idx-1]
+			b.OnShutdown = pShut
 			for i, m := range planModes {
 				if m == "extcrash" && idx == 1 {
 					b.DieDuringInv = i + 1
